@@ -19,6 +19,10 @@
 //	                                                      execution is still enabled (is_execution_enabled looks at the WHOLE payload),
 //	                                                      so the engine must be consulted with the spec's call sequence -> ok
 //
+//	premerge <cfg> <n> <seed> <slots> <step> <fork>       (bellatrix+) pre-state with the default execution header, block with the
+//	                                                      all-zero payload: bellatrix -> ok calls=0 (execution not enabled), capella and
+//	                                                      deneb -> err (process_execution_payload is unconditional from capella on)
+//
 // A result `polls-mismatch` / `calls-mismatch` means the clean run was not deterministic (machinery error).
 package faults
 
@@ -28,6 +32,7 @@ import (
 	"context"
 	"crypto/sha256"
 	"fmt"
+	"os"
 	"strconv"
 	"strings"
 
@@ -281,6 +286,9 @@ func gen(o hreg.Opts, w *bufio.Writer) error {
 				if len(cl.calls) > 0 {
 					fmt.Fprintf(w, "mergeblk %s %d\n", pre, si)
 				}
+				// the fork name is part of the line: the expected answer depends on it (and only on it)
+				fmt.Fprintf(w, "premerge %s %d %s\n", pre, si, strings.ToLower(st.Block.Fork.String()))
+				o.Stats.Add("premerge", strings.ToLower(st.Block.Fork.String()))
 				o.Stats.Add("execution", map[bool]string{true: "enabled", false: "pre-merge empty payload"}[len(cl.calls) > 0])
 			}
 		}
@@ -435,6 +443,11 @@ func exec(o hreg.Opts, sc *bufio.Scanner, w *bufio.Writer) error {
 					return "bad-op"
 				}
 				return mergeVariant(c, st)
+			case "premerge":
+				if st.Block == nil || st.Block.Fork < chain.Bellatrix || len(f) != 7 {
+					return "bad-op"
+				}
+				return premergeVariant(c, st)
 			case "args":
 				cl := transition(c, st, -1, -1, chain.EngineValid, false)
 				if st.Block == nil {
@@ -567,6 +580,66 @@ func executionEnabled(c *chain.Chain, st *chain.Step) (bool, error) {
 }
 
 // mergeVariant: zero the payload's block_hash and run the block without signature / state-root validation.
+// premergeVariant: the pre-state with latest_execution_payload_header reset to the default header (a chain that reached
+// this fork before its merge) and the same block carrying the all-zero (default) payload, run without signature / state
+// root validation. Bellatrix: is_execution_enabled is false, the payload step is skipped, the engine is not consulted
+// and the block is accepted -> "ok calls=0". From capella on process_execution_payload runs unconditionally: the zero
+// payload fails the prev_randao (or withdrawals) check, the block is refused -> "err"; accepting it would be success for a
+// payload the engine never approved.
+func premergeVariant(c *chain.Chain, st *chain.Step) string {
+	b := st.Block.Clone(c.Spec)
+	spec := *c.Spec
+	eng := chain.NewMockEngine(&spec)
+	spec.ExecutionEngine = eng
+	state := chain.WrapState(st.Pre)
+	epc, err := chain.FreshEpc(&spec, state)
+	if err != nil {
+		return "err-setup"
+	}
+	env := st.EnvelopeOf(b)
+	// slots (and fork upgrades) first, so that the header is reset on a state of the block's fork
+	if err := common.ProcessSlots(context.Background(), &spec, epc, state, env.Slot); err != nil {
+		return "err-setup"
+	}
+	switch {
+	case b.Bellatrix != nil:
+		b.Bellatrix.Message.Body.ExecutionPayload = bellatrix.ExecutionPayload{}
+		s, ok := state.BeaconState.(interface {
+			SetLatestExecutionPayloadHeader(h *bellatrix.ExecutionPayloadHeader) error
+		})
+		if !ok || s.SetLatestExecutionPayloadHeader(&bellatrix.ExecutionPayloadHeader{}) != nil {
+			return "err-setup"
+		}
+	case b.Capella != nil:
+		b.Capella.Message.Body.ExecutionPayload = capella.ExecutionPayload{}
+		s, ok := state.BeaconState.(interface {
+			SetLatestExecutionPayloadHeader(h *capella.ExecutionPayloadHeader) error
+		})
+		if !ok || s.SetLatestExecutionPayloadHeader(&capella.ExecutionPayloadHeader{}) != nil {
+			return "err-setup"
+		}
+	case b.Deneb != nil:
+		b.Deneb.Message.Body.ExecutionPayload = deneb.ExecutionPayload{}
+		b.Deneb.Message.Body.BlobKZGCommitments = nil
+		s, ok := state.BeaconState.(interface {
+			SetLatestExecutionPayloadHeader(h *deneb.ExecutionPayloadHeader) error
+		})
+		if !ok || s.SetLatestExecutionPayloadHeader(&deneb.ExecutionPayloadHeader{}) != nil {
+			return "err-setup"
+		}
+	default:
+		return "bad-op"
+	}
+	env = st.EnvelopeOf(b)
+	if err := common.PostSlotTransition(context.Background(), &spec, epc, state, env, false); err != nil {
+		if os.Getenv("C18_DEBUG") != "" {
+			return "err " + err.Error()
+		}
+		return "err"
+	}
+	return fmt.Sprintf("ok calls=%d", len(eng.Calls))
+}
+
 func mergeVariant(c *chain.Chain, st *chain.Step) string {
 	b := st.Block.Clone(c.Spec)
 	switch {
